@@ -8,6 +8,7 @@ mod rng;
 mod sx;
 
 mod c15;
+mod c16;
 
 use std::collections::BTreeMap;
 use std::io::Write;
@@ -94,6 +95,7 @@ fn main() {
     std::panic::set_hook(Box::new(|_| {}));
     match group.as_str() {
         "c15" => c15::run(&args, &mut out),
+        "c16" => c16::run(&args, &mut out),
         other => {
             eprintln!("unknown group {other}");
             std::process::exit(2);
